@@ -2282,8 +2282,16 @@ impl InferContext {
             //use cached result
             return Ok(*r);
         }
+        // Every successful result is memoized, including the ones a rule hands back with an
+        // early `return`: MIR generation asks for the type of each expression again after
+        // `substitute_all_intermediates`, when the rules can no longer be re-run.
+        self.infer_type_uncached(e).inspect(|ty| {
+            self.result_memo.insert(e.0, *ty);
+        })
+    }
+    fn infer_type_uncached(&mut self, e: ExprNodeId) -> Result<TypeNodeId, Vec<Error>> {
         let loc = e.to_location();
-        let res: Result<TypeNodeId, Vec<Error>> = match &e.to_expr() {
+        match &e.to_expr() {
             Expr::Literal(l) => Self::infer_type_literal(l, loc).map_err(|e| vec![e]),
             Expr::Tuple(e) => {
                 if e.is_empty() {
@@ -2832,10 +2840,7 @@ impl InferContext {
                 }
             }
             _ => Ok(Type::Failure.into_id_with_location(loc)),
-        };
-        res.inspect(|ty| {
-            self.result_memo.insert(e.0, *ty);
-        })
+        }
     }
     fn infer_type_unwrapping(&mut self, e: ExprNodeId) -> TypeNodeId {
         match self.infer_type(e) {
